@@ -224,8 +224,8 @@ def parse_embedded_scalar(scalar, version=LATEST_VER):
     match = DATETIME_RE.match(scalar)
     if match:
         matches = match.groups()
-        # Parse ISO8601 component
-        isodate = iso8601.parse_date(matches[0])
+        # Parse ISO8601 component ('z' may be written in lower case)
+        isodate = iso8601.parse_date(matches[0].upper())
         # Parse timezone
         tzname = matches[-1]
         if tzname is None:
